@@ -31,6 +31,11 @@ pub fn key_path(name: &str) -> PathBuf {
     }
 }
 
+/// remove this process' run-time certificates
+pub fn cleanup_minted() {
+    let _ = std::fs::remove_dir_all(format!("/verif/.target/minted/{}", std::process::id()));
+}
+
 fn minted_dir() -> PathBuf {
     let d = PathBuf::from(format!("/verif/.target/minted/{}", std::process::id()));
     let _ = std::fs::create_dir_all(&d);
